@@ -53,7 +53,7 @@ def configs(tier):
     if tier != "quick":
         for e in ("neighbors", "bft", "basic_render", "pyvis"):
             out.append({"entry": e, "callback": {"neighbors": "ff", "bft": "via", "basic_render": "sort", "pyvis": "rvfunc"}[e],
-                        "classes": ["DE", "DE", "UE"], "graph": "fixed" if e in ("bft", "basic_render") else "symbolic"})
+                        "classes": ["DE", "DE", "UE"], "graph": "symbolic" if e == "neighbors" else "fixed"})
     return out
 
 
